@@ -27,6 +27,57 @@ R4_REVIEWED = {
 ENUM_PARSERS = [M + "type_matcher::parse", "<%ssize::Unit as std::str::FromStr>::from_str" % M, "<%sregex::RegexType as std::str::FromStr>::from_str" % M]
 
 
+MAX_SAFE_NESTING = 300      # a debug build overflows an 8 MiB stack between 400 and 600 levels (measured)
+
+
+def _bounded_recursion(prog, f):
+    """self-recursion with a counter: some usize parameter p is passed as `p + 1` at every recursive call, every such call
+    is dominated by `p <= K` (any spelling) for a constant K <= MAX_SAFE_NESTING, and every outside caller passes a
+    constant <= K"""
+    rec = [(b, t) for b, t in f.calls() if t.callee == f.path]
+    if not rec:
+        return True, "no direct self call"
+    for p in range(1, f.arg_count + 1):
+        if f.local_ty(p) not in ("usize", "u32", "u64", "u16", "u8"):
+            continue
+        if any(d[1] != "partial" for d in prim.local_defs(f).get(p, [])):
+            continue            # the counter must not be reassigned
+        bound = None
+        ok = True
+        for b, t in rec:
+            if len(t.args) < p:
+                ok = False
+                break
+            o = prim.origin_of_operand(f, t.args[p - 1]).strip()
+            core = o.kids[0].strip() if o.k == "field" and o.kids else o
+            inc = core.k == "bin" and core.a in ("Add", "AddWithOverflow") and any(k.strip().k == "arg" and k.strip().a["idx"] == p for k in core.kids) and any(c.get("v") == 1 for c in core.consts())
+            if not inc:
+                ok = False
+                break
+            k_here = None
+            for at in prim.norm_guards(prim.dominating_guards(f, b)):
+                for x, y, rel in ((at["a"], at["b"], at["rel"]), (at["b"], at["a"], prim._SWAP[at["rel"]])):
+                    xs, ys = x.strip(), y.strip()
+                    if xs.k == "arg" and xs.a["idx"] == p and ys.k == "const" and isinstance(ys.a.get("v"), int) and not isinstance(ys.a.get("v"), bool):
+                        if rel == "le":
+                            k_here = ys.a["v"]
+                        elif rel == "lt":
+                            k_here = ys.a["v"] - 1
+            if k_here is None or k_here > MAX_SAFE_NESTING:
+                ok = False
+                break
+            bound = k_here if bound is None else max(bound, k_here)
+        if not ok:
+            continue
+        outside = [(g, b, t) for g, b, t in prog.all_calls() if t.callee == f.path and g.path != f.path]
+        for g, b, t in outside:
+            o = prim.origin_of_operand(g, t.args[p - 1]).strip()
+            if not (o.k == "const" and isinstance(o.a.get("v"), int) and o.a["v"] <= bound):
+                return False, "caller %s passes %s as the depth counter" % (g.path, o.fmt())
+        return True, "parameter `%s` is passed as +1 at each of the %d recursive call(s), each dominated by `%s <= %d`; %d outside caller(s) start it at a constant" % (f.local_name(p), len(rec), f.local_name(p), bound, len(outside))
+    return False, "no parameter is a bounded depth counter (passed as p + 1 under a dominating `p <= K`, K <= %d)" % MAX_SAFE_NESTING
+
+
 def run(ctx):
     prog = ctx.prog
     # ---- R1 parse before walk ---------------------------------------------------------------------------
@@ -269,8 +320,10 @@ def run(ctx):
         names = sorted({prim.short(x) for x in comp})
         kind = "parser" if C.BMT in comp else ("matcher-tree" if all(C.MATCHER_TRAIT in x or "Matcher" in x for x in comp) else "other")
         if kind == "parser":
-            ctx.ob("R7", "recursion:expression-parser", False,
-                   "build_matcher_tree calls itself once per '(' with no depth bound: the nesting depth is chosen by the command line, each level needs a large stack frame, and exhausting the stack aborts the process (SIGABRT) instead of ending with an exit status", fn=prog.fns[C.BMT], how="call-graph cycle")
+            bmt = prog.fns[C.BMT]
+            ok, why = _bounded_recursion(prog, bmt)
+            ctx.ob("R7", "recursion:expression-parser", ok,
+                   "build_matcher_tree calls itself once per '(': the nesting depth is chosen by the command line, each level needs a large stack frame, and exhausting the stack aborts the process (SIGABRT) instead of ending with an exit status — the recursion must carry a depth counter that is bounded by a constant: %s" % why, fn=bmt, how="call-graph cycle + dominating guard (normal form) + provenance of the counter")
         elif kind == "matcher-tree":
             meth = comp[0].rsplit("::", 1)[-1]
             ctx.ob("R7", "recursion:matcher-tree:%s" % meth, True, "%s recurses through the combinators (%d impls): depth = nesting depth of the expression tree, which build_matcher_tree's own (much larger) frames have already survived" % (meth, len(comp)), how="call-graph cycle (reviewed)", nontrivial=False)
